@@ -37,27 +37,33 @@ theorem no_create_update_on_marked (h : Handler) (i : In)
   cases d <;> cases m <;> cases b <;> cases o <;> cases df <;> cases ini <;>
     rcases hk with hk | hk <;> simp_all [invocable, detect, detectReason, gate, handlerReasons]
 
-/-- SCOPE of the clause above. `@kopf.on.field` handlers carry no cause kind (`reason=None`;
-    docs/handlers.rst: "there is no special detection of the causes for the fields, such as
-    create/update/delete"): the gate lets them into every handled cause, the deletion cause included —
-    whether they then run is their field filter's matter (C15: the field differs from the last-handled
-    state). They are not creation/update handlers and the clause is NOT claimed for them; what does hold
-    for them is `kindless_only_in_handled_causes`. -/
-theorem field_handler_on_marked_witness :
-    ∃ (h : Handler) (i : In), h.reason = none ∧ h.initial = false ∧
-      i.marked = true ∧ (detect i).reason = .delete ∧ invocable h i = true :=
-  ⟨⟨none, false, false⟩, ⟨false, true, true, false, true, false⟩, rfl, rfl, rfl, by decide, by decide⟩
-
-/-- A handler without a cause kind runs in handled causes only (create/update/delete/resume): never
-    for gone/released/no-op events; on a marked object only in the deletion cause, i.e. while the
-    framework's finalizer still holds the object. -/
-theorem kindless_only_in_handled_causes (h : Handler) (i : In) (hk : h.reason = none)
-    (hinv : invocable h i = true) :
-    (detect i).reason ∈ handlerReasons ∧ (i.marked = true → (detect i).reason = .delete ∧ i.blocked = true) := by
+/-- … nor are `@kopf.on.field` handlers, which carry no cause kind of their own (`reason=None`, not
+    resuming) and are "effective only when the object is updated" (docs/handlers.rst): since /repo 345a874
+    the gate keeps them off the objects marked for deletion (before, a field changed shortly before the
+    deletion request made them run in the deletion cause). -/
+theorem no_field_on_marked (h : Handler) (i : In) (hk : h.reason = none) (hni : h.initial = false)
+    (hinv : invocable h i = true) : i.marked = false := by
   rcases i with ⟨d, m, b, o, df, ini⟩
   rcases h with ⟨hr, hi, hd⟩
   cases d <;> cases m <;> cases b <;> cases o <;> cases df <;> cases ini <;>
     simp_all [invocable, detect, detectReason, gate, handlerReasons]
+
+/-- A handler without a cause kind (field or resuming) runs in handled causes only (create/update/
+    delete/resume): never for gone/released/no-op events; on a marked object only in the deletion cause,
+    i.e. while the framework's finalizer still holds the object — and then it is a resuming handler. -/
+theorem kindless_only_in_handled_causes (h : Handler) (i : In) (hk : h.reason = none)
+    (hinv : invocable h i = true) :
+    (detect i).reason ∈ handlerReasons ∧
+      (i.marked = true → (detect i).reason = .delete ∧ i.blocked = true ∧ h.initial = true) := by
+  rcases i with ⟨d, m, b, o, df, ini⟩
+  rcases h with ⟨hr, hi, hd⟩
+  cases hi <;> cases hd <;> cases d <;> cases m <;> cases b <;> cases o <;> cases df <;> cases ini <;>
+    simp_all [invocable, detect, detectReason, gate, handlerReasons]
+
+-- regression of the repaired behaviour: the former witness (a field handler in a deletion cause) is rejected
+example : invocable ⟨none, false, false⟩ ⟨false, true, true, false, true, false⟩ = false := by decide
+-- … while the same handler still runs for an update of an unmarked object
+example : invocable ⟨none, false, false⟩ ⟨false, false, true, false, true, false⟩ = true := by decide
 
 /-- Deletion handlers only while marked for deletion and still held by the own finalizer. -/
 theorem delete_only_while_held (h : Handler) (i : In) (hk : h.reason = some .delete)
